@@ -37,7 +37,7 @@ def hist(tag, ops, quick=150, thorough=1500, cover=None):
 
 
 PROPS = {
-    "C01": {"lean": ["QF.Props.C01", "QF.Props.C01Ops"],
+    "C01": {"lean": ["QF.Props.C01", "QF.Props.C01Ops", "QF.Props.C08ProjectGen"], "extra_ns": ["QF.Props.C08ProjectGen"],
             "sections": [dict(hist("hist", ["apply", "copy", "rownums", "eval", "sort"], quick=250), cover_ops=None)],
             "rule": "every step of every generated history re-observes all earlier family members (digest of the full observation); "
                     "evaluations = observations compared; non-trivial = successful operation on a result with >= 2 rows; distinct by (operation, result)"},
@@ -47,22 +47,22 @@ PROPS = {
     "C03": {"lean": ["QF.Props.C03", "QF.Props.C03Spec", "QF.Props.C03Compare", "QF.Props.C10Guards"], "extra_ns": ["QF.Props.C03Compare", "QF.Props.C10Guards"],
             "sections": [hist("hist", ["sort"]),
                          {"section": "sortadv", "quick": 300, "thorough": 3000, "cover_ops": {"SA"}}]},
-    "C04": {"lean": ["QF.Props.C04", "QF.Props.C04Spec", "QF.Props.C03Compare", "QF.Props.C04Hash", "QF.Props.C04Aggregations", "QF.Props.C10Guards"], "extra_ns": ["QF.Props.C04Spec", "QF.Props.C03Compare", "QF.Props.C04Hash", "QF.Props.C04Aggregations", "QF.Props.C10Guards"],
+    "C04": {"lean": ["QF.Props.C04", "QF.Props.C04Spec", "QF.Props.C03Compare", "QF.Props.C04Hash", "QF.Props.C04Aggregations", "QF.Props.C10Guards", "QF.Props.C04LoopsGen"], "extra_ns": ["QF.Props.C04Spec", "QF.Props.C03Compare", "QF.Props.C04Hash", "QF.Props.C04Aggregations", "QF.Props.C10Guards", "QF.Props.C04LoopsGen"],
             "sections": [hist("hist", ["groupagg", "groupframes", "permute", "grouptest"], quick=300, cover=["groupagg", "groupframes"]),
                          {"section": "grpadv", "quick": 600, "thorough": 6000, "cover_ops": {"GA"}},
                          {"section": "grpadv", "tag": "grpbig", "opt": "big=1", "quick": 1, "thorough": 4, "cover_ops": {"GB"}}]},
     "C05": {"lean": ["QF.Props.C05", "QF.Props.C05Distinct", "QF.Props.C04", "QF.Props.C04Spec", "QF.Props.C03Compare", "QF.Props.C04Hash", "QF.Props.C10Guards"], "extra_ns": ["QF.Props.C04", "QF.Props.C04Spec", "QF.Props.C03Compare", "QF.Props.C04Hash", "QF.Props.C10Guards"], "sections": [hist("hist", ["distinct"])]},
-    "C06": {"lean": ["QF.Props.C06", "QF.Props.C06Apply"],
+    "C06": {"lean": ["QF.Props.C06", "QF.Props.C06Apply", "QF.Props.C06LoopsGen"], "extra_ns": ["QF.Props.C06LoopsGen"],
             "sections": [{"section": "hist", "tag": "hist-wit", "opt": "wit=1", "quick": 1, "thorough": 1, "cover_ops": {"fapply"}},
                          hist("hist", ["apply", "fapply", "rownums"])]},
-    "C07": {"lean": ["QF.Props.C07", "QF.Props.C07Eval", "QF.Props.C07Functions", "QF.Props.C06", "QF.Props.C07Decode"], "extra_ns": ["QF.Props.C07Eval", "QF.Props.C07Functions", "QF.Props.C07Decode"], "sections": [hist("hist", ["eval", "eval", "permute"], quick=300, cover=["eval"])]},
-    "C08": {"lean": ["QF.Props.C08", "QF.Props.C08Project", "QF.Props.C08Guards", "QF.Props.C08Construct"], "extra_ns": ["QF.Props.C08Guards", "QF.Props.C08Construct"],
+    "C07": {"lean": ["QF.Props.C07", "QF.Props.C07Eval", "QF.Props.C07Functions", "QF.Props.C06", "QF.Props.C07Decode", "QF.Props.C06LoopsGen"], "extra_ns": ["QF.Props.C07Eval", "QF.Props.C07Functions", "QF.Props.C07Decode", "QF.Props.C06LoopsGen"], "sections": [hist("hist", ["eval", "eval", "permute"], quick=300, cover=["eval"])]},
+    "C08": {"lean": ["QF.Props.C08", "QF.Props.C08Project", "QF.Props.C08Guards", "QF.Props.C08Construct", "QF.Props.C08ProjectGen"], "extra_ns": ["QF.Props.C08Guards", "QF.Props.C08Construct", "QF.Props.C08ProjectGen"],
             "sections": [hist("hist", ["select", "drop", "slice", "copy"], cover=["new", "select", "drop", "slice", "copy"]),
                          {"section": "hist", "tag": "hist-new", "opt": "newonly=1", "quick": 150, "thorough": 1500, "cover_ops": {"new"}}]},
     "C09": {"lean": ["QF.Props.C09", "QF.Props.C09Equals", "QF.Props.C06", "QF.Props.C09Observe", "QF.Props.C09StringGen"], "extra_ns": ["QF.Props.C06", "QF.Props.C09Observe", "QF.Props.C09StringGen"],
             "sections": [dict(hist("hist", ["equals", "rebuild", "rebuild", "sort", "permute", "filter", "slice", "string", "tocsv", "tojson", "apply", "rownums", "copy"], quick=250), cover_ops=None),
                          {"section": "jsonsweep", "quick": 1, "thorough": 6, "cover_ops": {"JS"}}]},
-    "C11": {"lean": ["QF.Props.C11", "QF.Props.C01Ops"], "extra_ns": ["H", "QF.Props.C01"],
+    "C11": {"lean": ["QF.Props.C11", "QF.Props.C01Ops", "QF.Props.C08ProjectGen"], "extra_ns": ["H", "QF.Props.C01", "QF.Props.C08ProjectGen"],
             "sections": [{"section": "conc", "race": True, "quick": 150, "thorough": 2000, "cover_ops": {"CC"}}],
             "rule": "cases = batches of 6..12 operations (Filter incl. like/ilike, Sort, Distinct, GroupBy/Aggregate, Apply, FilteredApply, Eval with one shared context, Select/Slice/Copy, ToCSV/ToJSON/String, Equals) "
                     "started together on one frame family, each batch three times, in a binary built with the race detector; every result is compared with the result of the same operation run alone",
@@ -116,7 +116,7 @@ PROPS = {
             "sections": [{"section": "like", "quick": 1500, "thorough": 20000, "cover_ops": {"M", "ME"}}],
             "rule": "cases = (pattern, case flag, cells) run through the real NewMatcher/Matches/ToUpper and through Filter on a string column and an enum column with the same cells; "
                     "compared with the documented rule and the ToUpper mirror; unicode.ToUpper and regexp matching are oracle annotations from the Go standard library"},
-    "C15": {"lean": ["QF.Props.C15", "QF.Props.C15Faults", "QF.Props.C12"], "extra_ns": ["QF.Props.C15Faults", "QF.Props.C12"],
+    "C15": {"lean": ["QF.Props.C15", "QF.Props.C15Faults", "QF.Props.C12", "QF.Props.C14WriterGen", "QF.Props.C13WriterGen"], "extra_ns": ["QF.Props.C15Faults", "QF.Props.C12", "QF.Props.C14WriterGen", "QF.Props.C13WriterGen"],
             "sections": [dict(hist("hist", ["wfault"], quick=60, thorough=400), tag="hist-wfault", cover_ops=None, owns=lambda m: m["op"] in ("wfault", "rfault")),
                          dict(hist("hist", ["tosql", "tosql", "sort"], quick=60, thorough=400), tag="hist-sqlfault", opt="sqlfaults=1," + mix("tosql", "tosql", "sort"), cover_ops=None, owns=lambda m: m["op"] == "sqlfault"),
                          {"section": "sqlread", "tag": "sqlreadfaults", "opt": "faults=1", "quick": 300, "thorough": 3000, "cover_ops": {"SR"}},
